@@ -291,7 +291,7 @@ theorem xzLoop_complete (E : Env) (hloc : PayloadLocal E) (fl : Flags) {inp : Li
     rw [this]
     simp only [streamPadding, Nat.zero_add]
     rw [if_pos (by omega)]
-    exact ⟨rfl, h2, by rw [h3]⟩
+    exact ⟨rfl, h2, trivial⟩
   | more inp cap out len k b rest out2 c2 hc hv hdrop hb hsub ih =>
     intro fuel first hf
     obtain ⟨f, rfl⟩ : ∃ f, fuel = f + 1 := ⟨fuel - 1, by omega⟩
@@ -311,7 +311,7 @@ theorem xzLoop_complete (E : Env) (hloc : PayloadLocal E) (fl : Flags) {inp : Li
     simp only [streamPadding, Nat.zero_add]
     rw [if_neg hb, if_neg (by omega)]
     simp only [prepend]
-    rw [h3, h2, hd]
+    rw [h2, hd]
     exact ⟨i1, by rw [i2], by rw [i3]⟩
 
 /-- **COMPLETENESS.**  A byte string that is valid per the declarative grammar is accepted by `lzma_stream_decoder` +
